@@ -28,6 +28,20 @@ for m in muts:
         open(path, "w").write(src.replace(m["find"], m["replace"]))
         props = m["expect"]
         detected, outs = [], []
+        noisy = []
+        for p in m.get("silent", []):
+            env = dict(os.environ, VERIF_DIR=d)
+            os.makedirs(os.path.join(d, "checker"), exist_ok=True)
+            shutil.copy(os.path.join(root, "checker", "floors.json"), os.path.join(d, "checker", "floors.json"))
+            r = subprocess.run([os.path.join(root, "bin", "raftlint"), "-property", p, "-repo", dst], capture_output=True, text=True, env=env)
+            if r.returncode != 0:
+                noisy.append(p)
+                lines = [l for l in r.stdout.splitlines() if l.strip().startswith(("VIOLATED", "UNDECIDED", "ENGINE"))]
+                outs.append(f"{p}: FALSE ALARM " + " || ".join(l.strip()[:200] for l in lines[:3]))
+        if m.get("silent"):
+            print(("NOISY  " if noisy else "QUIET  ") + m["name"] + ": " + " ;; ".join(outs))
+            if noisy: ok = False
+            if not props: continue
         for p in props:
             env = dict(os.environ, VERIF_DIR=d)
             os.makedirs(os.path.join(d, "checker"), exist_ok=True)
